@@ -12,3 +12,8 @@ claim('C20', 'expression extraction from the syntax tree + exact polynomial iden
       'are identically the Taylor polynomial of exp(hλ) (degree 1 / 4); the central difference on a generic cubic has no O(1) or O(shift) error; '
       'constructors accept their own defaults; string-step rate laws, tangents and climbing-image selection match the documented formulas. '
       'Convergence to minima/saddle is not decided.', 'DESIGN.md §6 C20')
+
+claim('C19', 'third-party API compatibility rule against installed pandas signatures; integer-affine line accounting; structural trigger/merge rules',
+      'Decides necessary structural conditions of the log reader on the current source: every pandas call and DataFrame method exists with those keywords in the installed pandas; '
+      'header/footer line numbers are the trigger index +1/-1 over a counter that ignores blank lines, matched by skip_blank_lines reads of footer-header rows; both banners, the '
+      'version banner slice and month table; append semantics; the first/last/all flatten rules. That pandas parses printed numbers to equal values is not decided.', 'DESIGN.md §6 C19')
